@@ -38,7 +38,7 @@ theorem txBody_WF (V : ValueRT) (x : Rec) (e : Env)
         Kind.wf .dec64 (x "McallerPcode") ∧ Kind.wf .dec32 (x "McallerOkind") ∧
         Kind.wf .dec32 (x "McallerOid") ∧ Kind.wf .dec32 (x "McallerSpec") ∧
         Kind.wf .dec32 (x "McallerUrl") ∧ Kind.wf .dec32 (x "MthisSpec"))
-    (hf : fieldsWF V (x "Fields").toMap) : txBody.WF V x e := by
+    (hf : fieldsWF V (x "Fields").toMapN) : txBody.WF V x e := by
   have w : ∀ nm k, (nm, k) ∈ txAlways → Kind.wf k (x nm) := fun nm k h => hc (nm, k) h
   simp only [txBody, seq, L.WF, callerAlts, List.lookup]
   repeat' apply And.intro
@@ -62,11 +62,11 @@ theorem txRecord_WF (V : ValueRT) (x : Rec)
         Kind.wf .dec64 (x "McallerPcode") ∧ Kind.wf .dec32 (x "McallerOkind") ∧
         Kind.wf .dec32 (x "McallerOid") ∧ Kind.wf .dec32 (x "McallerSpec") ∧
         Kind.wf .dec32 (x "McallerUrl") ∧ Kind.wf .dec32 (x "MthisSpec"))
-    (hf : fieldsWF V (x "Fields").toMap)
+    (hf : fieldsWF V (x "Fields").toMapN)
     (hl : (txBody.write x).length < 2147483648) : txRecord.WF V x [] := by
   unfold txRecord
   simp only [L.WF, attrBytes, List.append_nil, attrWF]
-  exact ⟨by simp [Kind.wf], hl, txBody_WF V x [] hc hm hp hf, trivial, trivial⟩
+  exact ⟨by decide, by decide, hl, txBody_WF V x [] hc hm hp hf, trivial, trivial⟩
 
 /-- the `carried` projection of a TxRecord: what `Read` assigns in a fresh record -/
 def TxCarried (x : Rec) (e : Env) : Prop :=
@@ -80,7 +80,7 @@ def TxCarried (x : Rec) (e : Env) : Prop :=
          e.get "McallerUrl" = x "McallerUrl" ∧ e.get "MthisSpec" = x "MthisSpec"
     else e.lookup "McallerPcode" = none ∧ e.lookup "McallerOkind" = none ∧ e.lookup "McallerOid" = none ∧
          e.lookup "McallerSpec" = none ∧ e.lookup "McallerUrl" = none ∧ e.lookup "MthisSpec" = none) ∧
-  (e.lookup "Fields" = match (x "Fields").toMap with
+  (e.lookup "Fields" = match (x "Fields").toMapN with
                        | some (kv :: kvs) => some (.m (some (kv :: kvs)))
                        | _ => none) ∧
   e.get "ErrorLevel" =
@@ -91,7 +91,7 @@ theorem txRecord_carried (x : Rec) : TxCarried x (txRecord.expect x []) := by
   unfold TxCarried
   generalize he : txRecord.expect x [] = e
   simp only [txRecord, txBody, seq, L.expect, attrEnv] at he
-  generalize (x "Fields").toMap = fm at he ⊢
+  generalize (x "Fields").toMapN = fm at he ⊢
   by_cases hm : (x "Mtid").toInt ≠ 0 <;> by_cases hp : (x "McallerPcode").toInt ≠ 0 <;>
     rcases fm with _ | _ | ⟨kv, kvs⟩ <;>
     (subst he; simp (decide := true) [hm, hp, txPlain, Env.get, List.lookup, dfl])
